@@ -33,8 +33,10 @@ FORMS = {
     'F10': '=SEARCH(B1,A1)', 'F11': '=SEARCH(B1,A1,E1)', 'F12': '=CONCATENATE(A1,B1)', 'F13': '=CONCATENATE(A1,"-",C1,I1)', 'F14': '=A1&C1',
     'F15': '=A1&I1', 'F16': '=I1&"|"&A1', 'F17': '=CONCATENATE(I1,A1,I1)', 'F18': '=MID(A1,D1,C1)&RIGHT(A1,C1)', 'F19': '="["&LEFT(A1)&RIGHT(A1)&"]"',
     'F20': '=VALUE(L1)', 'F21': '=VALUE(L1)+1',
+    # Z9 is never written: a blank cell counts as 0 wherever a number is expected, it is not an omitted argument
+    'F22': '="["&LEFT(A1,Z9)&"]"', 'F23': '="["&RIGHT(A1,Z9)&"]"', 'F24': '=LEFT(A1,Z9)&MID(A1,Z9+1,H1)', 'F25': '="["&MID(A1,D1,Z9)&"]"',
 }
-SLICERS = ['F1', 'F2', 'F3', 'F4', 'F5', 'F6', 'F7', 'F8', 'F9', 'F18', 'F19']
+SLICERS = ['F1', 'F2', 'F3', 'F4', 'F5', 'F6', 'F7', 'F8', 'F9', 'F18', 'F19', 'F22', 'F23', 'F24', 'F25']
 SEARCHERS = ['F10', 'F11']
 JOINERS = ['F12', 'F13', 'F14', 'F15', 'F16', 'F17']
 VALUERS = ['F20', 'F21']
